@@ -165,6 +165,26 @@ fn e2e_case(tape: &[u8], cfg: &program::GenCfg, st: &mut Stats) -> Vec<Violation
         if !out.is_empty() {
             break;
         }
+        // which construct's first byte: the reported line must be the line on which a
+        // (canonical or undecided) instance of the detector's pattern *begins* (DESIGN section 8,
+        // "reports at"); in multi-line layouts this pins the location each detector chooses
+        for group in ["C05", "C06", "C07", "C08"] {
+            let mut scratch = Stats::default();
+            let vs = crate::props::detectors::check_text("e2e-construct-start", group, txt, &mut scratch);
+            st.evaluations += scratch.evaluations;
+            for mut v in vs {
+                let pat = v.case.get("pattern").and_then(|p| p.as_str()).unwrap_or("").to_string();
+                v.sig = format!("construct-start-line:{pat}");
+                v.what = format!("reported line is not the line on which the flagged construct begins: {}", v.what);
+                out.push(v);
+            }
+            if !out.is_empty() {
+                break;
+            }
+        }
+        if !out.is_empty() {
+            break;
+        }
     }
     st.sample(2, || json!({"layout_one_line": texts[1].chars().take(600).collect::<String>(), "random_layout": texts[4].chars().take(600).collect::<String>()}));
     out
@@ -177,6 +197,17 @@ pub fn replay(_env: &Env, check: &str, case: &Value, st: &mut Stats) -> Vec<Viol
             return conv_case(check, text, off as usize, st);
         }
         return vec![];
+    }
+    if check == "e2e-construct-start" {
+        let mut out = Vec::new();
+        for group in ["C05", "C06", "C07", "C08"] {
+            for mut v in crate::props::detectors::check_text(check, group, text, st) {
+                let pat = v.case.get("pattern").and_then(|p| p.as_str()).unwrap_or("").to_string();
+                v.sig = format!("construct-start-line:{pat}");
+                out.push(v);
+            }
+        }
+        return out;
     }
     e2e_text(check, text, st)
 }
